@@ -329,6 +329,15 @@ static void __attribute__((noinline)) run_boxes(vh_rng* r, int nops) {
         /* a collection must not touch what live boxes own */
         for (int g = 0; g < 40; g++) { var junk = new(PNode, $I(box_next_id++)); junk = NULL; }
         snprintf(opd, sizeof opd, "garbage+collections");
+      } else if (n > 0) {
+        /* a slot is given what it already holds (the element read back and stored again, or a Box around the same
+           object): nothing is finalised, the slot still owns its object */
+        int at = (int)vh_below(r, (uint64_t)n);
+        if (vh_chance(r, 50)) { set(c, $I(at), get(c, $I(at))); snprintf(opd, sizeof opd, "set(%d, get(%d))", at, at); }
+        else { var held = deref(get(c, $I(at))); set(c, $I(at), $B(held)); snprintf(opd, sizeof opd, "set(%d, Box(the object slot %d holds))", at, at); }
+        vh_eval();
+        if (deref(get(c, $I(at))) == NULL) { vh_violation("C05:box:slot-emptied-by-storing-what-it-already-held", "%s left the slot without an object", opd); }
+        vh_count("box_slots_given_what_they_hold");
       } else { continue; }
       vh_op("%s", opd);
       for (int i = 0; i < n; i++) { box_expect(ids[i], MO_CONSTRUCTED, "owned-object-finalised-while-still-contained", opd); }
